@@ -28,6 +28,7 @@ def check(ctx):
     ctx.sub(c14.s5_outputs)
     ctx.sub(c02.mark_loop, 'C08.equity')        # equity = cash + holdings at that close's price
     ctx.sub(c12.clock_range_rule, 'C08.clock')
+    ctx.sub(c13.schedules)                      # 'at each scheduled close': the schedules hold the documented instants and meet clock events
     ctx.sub(open_row_is_exchange_open)
 
 
@@ -147,8 +148,15 @@ def execution(ctx):
 def funding(ctx):
     qn = 'BacktestTradingSession._create_broker'
     fn = ctx.fn(qn)
-    ps = summarise(ctx, qn, policy=no_inline)
+
+    def own_helpers(caller, callee, depth, _p=fn.path):
+        # helpers of the session module (a split-off 'create the default portfolio' step, a module-level broker factory) are read through
+        return depth <= 4 and callee.path == _p and callee.name != '__init__' and (callee.cls is None or callee.name.startswith('_'))
+    ps = summarise(ctx, qn, policy=own_helpers)
+    detail = None
     for p in normal(ps):
+        if any(v_ and c_[0] == 'cmp' and c_[1] in ('is', '==') and A('self', 'fee_model') in (c_[2], c_[3]) and T.NONE in (c_[2], c_[3]) for c_, v_, _ in p.conds):
+            continue        # no fee model configured at all: outside the property's quantifier
         bk = [e for e in p.flat_events() if e.kind == 'call' and e.callee == ['SimulatedBroker.__init__']]
         cp = [e for e in p.flat_events() if e.kind == 'call' and 'SimulatedBroker.create_portfolio' in e.callee]
         sf = [e for e in p.flat_events() if e.kind == 'call' and 'SimulatedBroker.subscribe_funds_to_portfolio' in e.callee]
@@ -159,9 +167,12 @@ def funding(ctx):
                 a.get('initial_funds') == A('self', 'initial_cash') and a.get('fee_model') == A('self', 'fee_model')
             ok = ok and cp[0].args.get('portfolio_id') == A('self', 'portfolio_id') and sf[0].args.get('portfolio_id') == A('self', 'portfolio_id') and \
                 sf[0].args.get('amount') == A('self', 'initial_cash')
+            if not ok:
+                detail = {k: fmt(v)[:40] for k, v in a.items()}
             evs = list(p.flat_events())
             ok = ok and evs.index(bk[0]) < evs.index(cp[0]) < evs.index(sf[0])
         ctx.require(ok, 'C08.funding', 'the session creates its broker with the configured fee model and funds its one portfolio with the whole initial cash', fn.site(),
+                    'broker constructed with %s' % (detail if not ok and len(bk) == 1 else '%d broker / %d portfolio / %d funding calls' % (len(bk), len(cp), len(sf))),
                     key='C08.funding|broker')
     ps = summarise(ctx, 'BacktestTradingSession.__init__', policy=no_inline)
     for p in normal(ps)[:1]:
